@@ -22,7 +22,11 @@ RULE = ('Case = declarations of 1-3 measurements (scalar / 1-D / 2-D; validators
         'validator marginal; rejected ops raise and leave value/outcome/marginal unchanged; after the phase nothing is '
         'PARTIALLY_SET; a raising validator => FAIL + error at the assignment (scalar) or as the phase result (dimensioned).  '
         'Compared after every op and on the final record.  Non-trivial = history with an override, or a rejected op after a set, '
-        'or an applicable conditional validator; distinct by canonical case.')
+        'or an applicable conditional validator; distinct by canonical case.  Second domain (deterministic scheduler): the phase '
+        'thread is descheduled past its timeout at every line of its assignments (8 scripts: first / second / overriding assignment to '
+        'validated and plain, scalar and dimensioned measurements), so the executor finalizes the phase and kills the thread in the '
+        'middle of an assignment; the finalized record must still be consistent: nothing PARTIALLY_SET, no outcome other than '
+        'UNSET without a recorded value, no UNSET with one, PASS/FAIL as the validators decide on the recorded value.')
 ASSUMPTIONS = ['Validator decision logic itself is C07; here validators are rebuilt from their spec and applied to the model value.',
                'A transform that raises (e.g. round(None)) is treated as a rejected assignment.']
 
@@ -506,9 +510,142 @@ def cases(draw):
           'allow_unset': draw(st.booleans())}
 
 
+
+# ------------------------------------------------------------------ an assignment cut short by the kill of its thread
+KILL_SCRIPTS = {
+    # name: ops of the body; ('dv', 1, 5) = dv[1] = 5; ('sv', 5) = sv = 5
+    'dim-validated-first': [('dv', 1, 5)],
+    'dim-plain-first': [('dp', 1, 5)],
+    'dim-plain-second': [('dp', 1, 5), ('dp', 2, 6)],
+    'dim-validated-second-fails': [('dv', 1, 5), ('dv', 2, 50)],
+    'scalar-validated-pass': [('sv', 5)],
+    'scalar-validated-fail': [('sv', 50)],
+    'scalar-plain': [('sp', 5)],
+    'scalar-override-fails': [('sv', 5), ('sv', 50)],
+}
+KILL_FUNCS = ('__setitem__', '__setattr__', 'set', 'notify_value_set', 'validate', '_set_measurement_outcome', 'notify_update', 'value',
+              'is_value_set', '_maybe_validate', 'notify')
+
+
+def killed_case(case):
+  """case = {'script': name, 'by': 'timeout'|'monitor', 'plan': {k: ['stall', s]}}"""
+  def fn(s):
+    from vf import vmode  # pylint: disable=g-import-not-at-top
+    htf = ohtf.reset_case(cancel_timeout_s=0.5, plug_teardown_timeout_s=0.5, allow_unset_measurements=True)
+    vmode.quiet_logging()
+    ops_ = KILL_SCRIPTS[case['script']]
+
+    @htf.PhaseOptions(timeout_s=1.0)
+    @htf.measures(htf.Measurement('dv').with_dimensions('x').with_validator(lambda rows: all(r[-1] < 10 for r in rows)),
+                  htf.Measurement('dp').with_dimensions('x'),
+                  htf.Measurement('sv').in_range(0, 10),
+                  htf.Measurement('sp'))
+    def put(test):
+      s.events.append(('put-start', s.k, s.me().idx))
+      s.sleep(0.5)
+      for op in ops_:
+        if len(op) == 3:
+          test.measurements[op[0]][op[1]] = op[2]
+        else:
+          test.measurements[op[0]] = op[1]
+      s.events.append(('put-end', s.k, s.me().idx))
+
+    test = htf.Test(put)
+    got = []
+    test.add_output_callbacks(got.append)
+    test.execute()
+    rec = got[0]
+    out = {}
+    for p in rec.phases:
+      if p.name == 'put':
+        for name, m in p.measurements.items():
+          mv = m.measured_value
+          if m.dimensions:
+            rows = [tuple(r) for r in mv.value] if mv.is_value_set else []
+          else:
+            rows = [mv.value] if mv.is_value_set else []
+          out[name] = (m.outcome.name, rows)
+    return {'meas': out, 'outcome': rec.outcome.name, 'phases': [(p.name, p.outcome.name) for p in rec.phases]}
+
+  return fn
+
+
+def check_killed(case):
+  from vf import vmode  # pylint: disable=g-import-not-at-top
+  r = CaseResult()
+  plan_ = {int(k): v for k, v in (case.get('plan') or {}).items()}
+  s, res, exc = vmode.run(killed_case(case), plan=plan_, time_limit=1e5, watchdog_s=20.0, trace=bool(case.get('trace')), max_steps=60000)
+  r.classes = ['killed-assignment', 'script:' + case['script'], 'stalled' if plan_ else 'baseline']
+  r.nontrivial = bool(plan_)
+  if s.failure is not None:
+    if s.failure[0] in ('deadlock', 'steplimit'):
+      r.bad('C06/killed-assignment/hang', '%s plan=%r: %s' % (case['script'], case.get('plan'), s.failure[1][:400]))
+      return r, s
+    raise RuntimeError('scheduler failure: %r' % (s.failure,))
+  if exc is not None:
+    r.bad('C06/killed-assignment/execute-raised/%s' % type(exc).__name__, '%s plan=%r: %r' % (case['script'], case.get('plan'), exc))
+    return r, s
+  accept = {'dv': lambda rows: all(x[-1] < 10 for x in rows), 'dp': lambda rows: True, 'sv': lambda rows: 0 <= rows[0] <= 10, 'sp': lambda rows: True}
+  for name, (outcome, rows) in sorted(res['meas'].items()):
+    where = '%s plan=%r: measurement %s outcome %s recorded %r' % (case['script'], case.get('plan'), name, outcome, rows)
+    if outcome == 'PARTIALLY_SET':
+      r.bad('C06/killed-assignment/left-PARTIALLY_SET', where)
+    elif not rows and outcome != 'UNSET':
+      r.bad('C06/killed-assignment/%s-with-nothing-recorded' % outcome, where + ' (the record holds no value for it, yet it is not UNSET)')
+    elif rows and outcome == 'UNSET':
+      r.bad('C06/killed-assignment/UNSET-with-recorded-value', where + ' (a value is in the record, yet the outcome says it was never assigned)')
+    elif rows and outcome != ('PASS' if accept[name](rows) else 'FAIL'):
+      r.bad('C06/killed-assignment/outcome-contradicts-recorded-value', where)
+    r.classes.append('%s:%s' % (name, outcome))
+  return r, s
+
+
+def killed_sweep_setup_only():
+  from vf import vmode  # pylint: disable=g-import-not-at-top
+  from vf import vsched as V  # pylint: disable=g-import-not-at-top
+  from openhtf.core import measurements, test_state  # pylint: disable=g-import-not-at-top
+  vmode.setup()
+  V.monitor_lines(vmode.executor_code_objects() + V.code_objects_of(
+      measurements.Collection, measurements.Measurement, measurements.MeasuredValue, measurements.DimensionedMeasuredValue,
+      test_state.TestState.notify_update, test_state.PhaseState._finalize_measurements))
+  if not _KWARM:
+    _KWARM.append(1)
+    check_killed({'killed': 1, 'script': 'scalar-plain'})     # warm-up: one-time initialisation lines shift yield indices
+
+
+_KWARM = []
+
+
+def killed_sweep(script, acct, known):
+  killed_sweep_setup_only()
+
+  def record(case, r):
+    acct.case(case, r.nontrivial, r.classes)
+    for sig, detail in r.violations:
+      (acct.known if sig in known else acct.violation)(sig, case, detail)
+
+  base = {'killed': 1, 'script': script}
+  r0, s0 = check_killed(dict(base, trace=True))
+  record(base, r0)
+  body = [e for e in s0.events if e[0] == 'put-start']
+  ends = [e for e in s0.events if e[0] == 'put-end']
+  if not body or not ends:
+    return
+  bt, k0, k1 = body[0][2], body[0][1], ends[0][1]
+  # the phase thread is descheduled past its deadline (1 s) at every line it executes between its first assignment and
+  # the end of its body: the executor abandons it there, finalizes the phase, and the kill reaches it when it resumes
+  pts = [k for k, tidx, tag in s0.tags if tidx == bt and k0 < k <= k1 and tag and tag[0] == 'line']
+  for k in pts:
+    case = dict(base, plan={str(k): ['stall', 2.0]})
+    r, _ = check_killed(case)
+    record(case, r)
+  acct.exhaustive_parts.append('killed assignment %s: phase thread stalled past its deadline at every one of %d lines of its assignments' % (script, len(pts)))
+
+
 def plan(tier, seed):
   n = 600 if tier == 'quick' else 9000
-  return [{'kind': 'hyp', 'name': 'hyp%d' % i, 'hseed': seed * 1000 + i, 'n': n} for i in range(16)]
+  jobs = [{'kind': 'killed', 'name': 'killed.' + k, 'script': k} for k in sorted(KILL_SCRIPTS)]
+  return jobs + [{'kind': 'hyp', 'name': 'hyp%d' % i, 'hseed': seed * 1000 + i, 'n': n} for i in range(16)]
 
 
 def run_job(job, acct):
@@ -517,8 +654,14 @@ def run_job(job, acct):
     from vf import runner  # pylint: disable=g-import-not-at-top
     runner.run_regress(sys.modules[__name__], job, acct)
     return
+  if job['kind'] == 'killed':
+    killed_sweep(job['script'], acct, known)
+    return
   hyp.search(acct, cases(), check, seed=job['hseed'], max_examples=job['n'], known=known)
 
 
 def replay(case):
+  if case.get('killed'):
+    killed_sweep_setup_only()
+    return check_killed(case)[0].violations
   return check(case).violations
